@@ -355,6 +355,17 @@ func runC15(tier string) *vf.Run {
 		}
 	})
 
+	// concurrent-DDL part (c15_ddl.go)
+	nd := run.Pick(40, 600)
+	parallel(nd, 8, func(i int) {
+		if len(only) == 0 {
+			c15DDLCase(run, box, i)
+		}
+	})
+	run.Rule += " PLUS the concurrent-DDL part (counters ddl_*): for generated catalogs, a collection and a partition are created again under names that only had dropped incarnations (and the source clock moves on) right after the k-th etcd read of the snapshot, for every k; the snapshot's entry for such a name must be strictly below the new incarnation's creation time."
+	run.Floor("ddl_injections", run.Pick(60, 900))
+	run.Floor("ddl_collection_entries_judged", run.Pick(20, 300))
+	run.Floor("ddl_partition_entries_judged", run.Pick(10, 150))
 	// floors at about a third of an unloaded quick run (thorough scales by 20)
 	scale := run.Pick(1, 20)
 	for _, f := range []struct {
